@@ -24,7 +24,9 @@ type shp struct {
 	G3 geometry.Geometry
 	// fourth realisation: the same shape scaled by 2^-30 (products of
 	// coordinate differences around 2^-56..2^-60: an absolute epsilon would bite)
-	G4  geometry.Geometry
+	G4 geometry.Geometry
+	// fifth realisation: small and far away (lattice step 2^-12 at about 2^19)
+	G5  geometry.Geometry
 	tag string // curated name, "" for enumerated
 }
 
@@ -41,7 +43,7 @@ func movedBack(e *exact.Shape) geometry.Geometry {
 }
 
 func mkShp(e *exact.Shape, cfg2 *geometry.IndexOptions) *shp {
-	return &shp{E: e, G: geomOf(e, ident, idxNone), G2: geomOf(e, ident, cfg2), G3: movedBack(e), G4: geomOf(e, tinyXf, idxNone)}
+	return &shp{E: e, G: geomOf(e, ident, idxNone), G2: geomOf(e, ident, cfg2), G3: movedBack(e), G4: geomOf(e, tinyXf, idxNone), G5: geomOf(e, farFineXf, idxNone)}
 }
 
 func poolPoints(k, off int) []*shp {
@@ -483,6 +485,9 @@ func evalPair(c *rt.Case) (bool, string, string, error) {
 	gb, err := buildGeom(c.B, cb)
 	if err != nil {
 		return false, "", "", err
+	}
+	if c.Cfg == "far-fine" {
+		ga, gb = geomOf(ea, farFineXf, idxNone), geomOf(eb, farFineXf, idxNone)
 	}
 	if c.Cfg == "tiny" {
 		ga, gb = geomOf(ea, tinyXf, idxNone), geomOf(eb, tinyXf, idxNone)
